@@ -1,3 +1,4 @@
 pub mod val;
 pub mod gen;
 pub mod obs;
+pub mod tree;
